@@ -1416,7 +1416,10 @@ class Index(DomainMapping):
 
     @property
     def _name_(self):
-        return f"{self._child_._var_._name_}[{self._key_}]"
+        # only keys of builtin types are shown as they are: formatting a user's key object would call its __str__
+        key = self._key_
+        shown = key if isinstance(key, (int, str, float, bool, slice, type(None))) else type(key).__name__
+        return f"{self._child_._var_._name_}[{shown}]"
 
 
 @dataclass(eq=False, repr=False)
